@@ -110,7 +110,7 @@ def wide_input_cases(rep, rng, n):
         mea = np.asarray(d["measures"][k], dtype=np.float64)
         if rng.random() < 0.5:
             # ... and measures wider than the archive's dtype: a float64 point whose cell differs from the cell of its float32 rounding
-            # (found by bisection across a cell border); both paths must judge the cell index_of gives for the caller's values
+            # (found by bisection across a cell border); both paths must judge the SAME cell (since fix FC07a: the cell of the stored, i.e. rounded, measures)
             m2 = au.cast_sensitive_measures(a1, spec, rng)
             if m2 is not None:
                 mea = m2
